@@ -451,4 +451,10 @@ def call (F : Facts) (k : ClientKind) (r : RouteKind) (t : ElemTy) (qlen addr : 
     | .ok ys => .ok ys
     | .error e => .error (.client e)
 
+/-- The request message a client helper (`call_typed_slice`, `call_typed_slice_aligned`,
+`call_typed_beve` of `Client` / `AsyncClient`) builds: id, JSON-pointer query set *first*, then the
+body for that query. -/
+def clientRequest (F : Facts) (k : ClientKind) (t : ElemTy) (id : Nat) (path : Bytes) (xs : List Bytes) : Message :=
+  (sliceBuilder id false 0 1 path (requestBody F k t path.length xs)).build
+
 end Repe.Beve
